@@ -51,6 +51,9 @@ func c06Gen(rng *rand.Rand, conf string, idx int) any {
 		return w
 	}
 	n := 1 + rng.Intn(6)
+	if conf == "deep" {
+		n = 4 + rng.Intn(3)
+	}
 	idxPool := rng.Intn(3) // 0: spread, 1: few values (collisions), 2: random
 	for k := 0; k < n; k++ {
 		var ix int
@@ -78,10 +81,10 @@ func c06Gen(rng *rand.Rand, conf string, idx int) any {
 		}
 		w.Plugins = append(w.Plugins, C06Plugin{Name: names[k], Idx: fmt.Sprintf("%02d", ix), Mask: m, Late: rng.Intn(3) == 0})
 	}
-	m := 1 + rng.Intn(4)
+	m := 1 + rng.Intn(4*deep(conf))
 	for c := 0; c < m; c++ {
 		cl := C06Caller{Block: rng.Intn(3) != 0}
-		for k, ne := 0, 1+rng.Intn(5); k < ne; k++ {
+		for k, ne := 0, 1+rng.Intn(5*deep(conf)); k < ne; k++ {
 			cl.Events = append(cl.Events, pick(rng, EventNames))
 		}
 		w.Callers = append(w.Callers, cl)
@@ -523,7 +526,7 @@ func init() {
 		Shrink: c06Shrink,
 		Confs: func(tier string) []Conf {
 			if tier == "thorough" {
-				return []Conf{{Name: "random", Weight: 1}, {Name: "masksweep", Grid: 1639}}
+				return []Conf{{Name: "random", Weight: 3}, {Name: "deep", Weight: 1}, {Name: "masksweep", Grid: 1639}}
 			}
 			return []Conf{{Name: "random", Weight: 4}, {Name: "masksweep", Weight: 1}}
 		},
